@@ -312,12 +312,10 @@ def exec_case(ctx, case):
     eref = mgr.ref(elements, "e")
     fref = mgr.ref(math, "f")
     try:
-        # building the LALR tables dominates the cost: one evaluator pair per mode and worker, re-pointed per case
-        if mode not in _EVALUATORS:
-            _EVALUATORS[mode] = (MadxEval({}, math, {}, get=mode), MadxEval({}, math, {}, get=mode))
-        imm, dfr = _EVALUATORS[mode]
-        imm.variables, imm.functions, imm.elements = variables, math, elements
-        dfr.variables, dfr.functions, dfr.elements = vref, fref, eref
+        # fresh evaluators for every case, exactly as MadxEnv builds them: an evaluator shared between cases would
+        # leak any state it keeps (a memoising evaluator made the test body history dependent -> harness error)
+        imm = MadxEval(variables, math, elements, get=mode)
+        dfr = MadxEval(vref, fref, eref, get=mode)
     except Exception as e:
         return finish(Failure(f"C19:evaluator-construction-raises:{type(e).__name__}", dict(rendered, raised=repr(e)[:200])))
 
@@ -402,7 +400,7 @@ def exec_case(ctx, case):
 
 
 def run(ctx):
-    drive(ctx, cases(), lambda c: exec_case(ctx, c), ctx.n(1500, 12000), salt=1, label="C19")
+    drive(ctx, cases(), lambda c: exec_case(ctx, c), ctx.n(400, 5000), salt=1, label="C19")
 
 
 def replay(ctx, case):
